@@ -320,6 +320,39 @@ def _hv_values():
     return _HVV[0]
 
 
+# ------------------------------------------------------------------ K7 the whole validator on fixed shapes
+def _name_char(v):
+    o = ord(v)
+    return 48 <= o <= 57 or 65 <= o <= 90 or 97 <= o <= 122 or o == 95 or o == 45
+
+
+def whole_validator(v: str, shape: int) -> bool:
+    """
+    pre: len(v) == 1
+    pre: R.ascii_printable(v)
+    pre: 0 <= shape <= 2 and (R.env_int("VP_K") is None or shape == R.env_int("VP_K"))
+    post: _
+    """
+    # HedString.validate end to end (both stages, all validators) on a well-formed annotation with ONE free
+    # character: the verdict must be "no error" exactly when the character makes the annotation rule-conforming
+    from vp.mini import MINI
+    if shape == 0:
+        text = "A, (G, H/" + v + ")"              # a name-class value
+        want = _name_char(v)
+    elif shape == 1:
+        text = "(Duration/" + v + " s, (B))"       # a numeric value with a unit
+        want = 48 <= ord(v) <= 57
+    else:
+        text = "B, " + v                           # a second top-level tag
+        lo = v.lower()
+        want = lo == "a" or lo == "c" or lo == "e" or lo == "f" or lo == "h" or lo == "u"
+    issues = HedString(text, MINI).validate(allow_placeholders=False)
+    if not isinstance(issues, list):
+        return False
+    errs = [i for i in issues if i["severity"] == 1]
+    return (errs == []) == want
+
+
 # ------------------------------------------------------------------ K6 issue kind -> published code
 KINDS = [ValidationErrors.NO_VALID_TAG_FOUND, ValidationErrors.INVALID_PARENT_NODE, ValidationErrors.HED_TAG_GROUP_TAG,
          ValidationErrors.HED_TOP_LEVEL_TAG, ValidationErrors.TAG_EXTENSION_INVALID, ValidationErrors.TAG_REQUIRES_CHILD]
@@ -415,6 +448,17 @@ HARNESSES = [
         oracle="hand-written numeric scanner and name-class predicate",
         stubs=["mini schema variant vp/mini_values.py (extra node L/# with two value classes) loaded by the real loader"],
         outside="non-ASCII values; other class combinations; the bundled schemas' Loudness/#"),
+    R.H("whole_validator",
+        ["hed.validator.hed_validator.HedValidator.validate", "hed.validator.hed_validator.HedValidator.run_basic_checks",
+         "hed.validator.hed_validator.HedValidator.run_full_string_checks", "hed.models.hed_string.HedString.validate"],
+        quick=R.tier(cells=R.int_cells("VP_K", 0, 2), timeout=500, path_timeout=60,
+                     bound="three fixed annotations on the mini schema with ONE free printable-ASCII character: a "
+                           "name-class value, a numeric value before a unit, a second top-level tag"),
+        what="the full two-stage validator reports no error exactly when the free character makes the annotation "
+             "rule-conforming (name character / digit / one of the usable one-letter tags, not a repeat)",
+        oracle="inline per-shape predicate from the HED rules and the mini tag tree",
+        stubs=["mini schema", "chx / chx_hash accelerators", "split_into_groups recompiled with `is` -> `==`"],
+        outside="more than one free character (out of reach: ~6 s of solver time per path); other shapes"),
     R.H("published_code", ["hed.errors.error_reporter.ErrorHandler.format_error"],
         quick=R.tier(timeout=120, bound="6 issue kinds x any override code text of 1-3 chars / no override"),
         what="the reported code is the override when given, else the kind's published HED code; severity error",
